@@ -1,4 +1,5 @@
 import Aiorpcx.C01.Commute
+import Aiorpcx.C01.SortExplicit
 import Aiorpcx.Facts.C01
 /-!
 # C01 — a response completes exactly the request that caused it
@@ -749,6 +750,22 @@ theorem cancel_all (vr : Variant) (k : Nat) {c : Conn V} (e : Key × Nat) (he : 
   split at hp
   · assumption
   · cases hp
+
+/-! ## notification-only batches (F19) -/
+
+/-- **notification_only_batch.**  A batch without request members draws no id, registers nothing
+    and has no future (`event is None`); in the repaired tree (fixes/F19) `BatchRequest.__aexit__`
+    then awaits nothing and the results are empty — no exception after the batch was written. -/
+theorem notification_only_batch (vr : Variant) (k : Nat) (c : Conn V) (ms : List Member)
+    (hne : ms ≠ []) (hn : reqCount ms = 0) (hb : (c.proto.getD .v2).allowBatches = true) :
+    step vr k c (.sendBatch ms true) = (c, .sent [] none) ∧ batchExit true none = .ok none := by
+  refine ⟨?_, rfl⟩
+  have h1 : ms.isEmpty = false := by cases ms <;> simp_all
+  simp [step, hn, hb, h1]
+
+/-- F19 on the pinned tree: `await None` raises `TypeError` -/
+theorem notification_only_batch_pinned_witness :
+    batchExit false none = .error .typeError := rfl
 
 /-! ## ties to the source (facts regenerated from /repo on every run) -/
 
